@@ -32,7 +32,7 @@ Observe(o, e, NInit) ==
         IF e.ok = "t" THEN [o EXCEPT !.linkopen = TRUE, !.ptr = 0,
                                      !.phase = IF ~o.linkopen /\ o.phase \in {"idle", "closed"}
                                                THEN "opened" ELSE @]
-        ELSE [o EXCEPT !.openfail = TRUE]
+        ELSE [o EXCEPT !.openfail = TRUE, !.owed = TRUE]     \* whoever fails to (re-)open the link owes a repair
     ELSE IF e.k = "apdu" THEN
         LET o1 == IF e.init > 0 /\ e.init = o.ptr + 1 /\ e.fault = "none"
                   THEN [o EXCEPT !.ptr = e.init,
@@ -51,8 +51,9 @@ Clauses(o, n, e, DevErr) == <<
     <<"ReopenWithoutClose",         (e.k = "open" /\ o.owed) => ~o.linkopen>>,
     <<"FaultReplyCode",  (e.k = "reply" /\ IsLinkFault(o.fault)) => (e.hascode /\ e.code = DevErr)>>,
     <<"FaultStopsManager", (e.k = "reply" /\ IsLinkFault(o.fault)) => ~e.shutdown>>,
-    <<"ReconnectFailReplyCode", (e.k = "reply" /\ o.openfail /\ o.owed) => (e.hascode /\ e.code = DevErr)>>,
-    <<"ReconnectFailStopsManager", (e.k = "reply" /\ o.openfail /\ o.owed) => ~e.shutdown>>,
+    \* (also when the re-opening happens inside a command: uiHeartbeat re-opens the link after each app switch)
+    <<"ReconnectFailReplyCode", (e.k = "reply" /\ o.openfail) => (e.hascode /\ e.code = DevErr)>>,
+    <<"ReconnectFailStopsManager", (e.k = "reply" /\ o.openfail) => ~e.shutdown>>,
     \* whatever a request finds when it starts the repair (a link object left behind by an earlier failed
     \* attempt included), it is answered with a code and the manager goes on
     \* (a repair that re-opened the link and then found the device in a state it must not serve from stops the
